@@ -243,7 +243,20 @@ def run(ck):
     if not ok_g:
         ok, info = False, info_g
     allstrata = strata.all_strata(sgs.SpaceGroupList)
-    cases = list(gen_cases(ck, sgs.SpaceGroupList, allstrata))
+    # corpus of minimised past failures first (harness/c02_corpus.json), then the generated cases
+    cases = []
+    try:
+        corpus = json.load(open(os.path.join(os.path.dirname(os.path.abspath(__file__)), "c02_corpus.json")))
+    except OSError:
+        corpus = []
+    bynum = {g.number: g for g in sgs.SpaceGroupList}
+    for r in corpus:
+        g = bynum.get(r["setting"])
+        if g is not None:
+            cases.append((g, r["variant"], [Fraction(v) for v in r["special_site"]], [Fraction(v) for v in r["xyz"]],
+                          tuple(Fraction(v) for v in r["sgoffset"]), {"nstab": 1, "corpus": True}))
+    ck.coverage["corpus_cases"] = len(cases)
+    cases += list(gen_cases(ck, sgs.SpaceGroupList, allstrata))
     lines, Ds, mcases = [], [], []
     for c in cases:
         sg, kind, x0, x, off, st = c
